@@ -5,7 +5,6 @@ use crate::env::Env;
 use crate::subject::*;
 use crate::watch;
 use serde_json::json;
-use std::time::Duration;
 
 pub fn sigma01() -> Vec<char> {
     [
@@ -133,18 +132,6 @@ fn templates(c: char) -> [Vec<char>; 12] {
 }
 
 pub fn run(_env: &Env, run: &Run) -> (Stats, Coverage) {
-    let prop = run.prop.clone();
-    watch::start_monitor(Duration::from_secs(10), move |what, cps, secs| {
-        // a case that does not return: report and end the run
-        let dir = crate::engine::out_dir().join("replays").join(&prop);
-        let _ = std::fs::create_dir_all(&dir);
-        let p = dir.join("stuck.json");
-        let body = json!({"property": prop, "kind": "does_not_return", "case": {"op": what, "strs": [cps], "nums": [], "extra": null}, "expected": "returns", "actual": format!("still running after {} s", secs)});
-        let _ = std::fs::write(&p, serde_json::to_string_pretty(&body).unwrap());
-        println!("  violation[does_not_return] {} on {:?} still running after {} s", what, cps, secs);
-        println!("VIOLATION property={} replay={}", prop, p.display());
-        std::process::exit(1);
-    });
     // (a) every scalar value in 12 templates + next to each of its bit-16..20 aliases through every operation
     let mut st = cpsweep(|c, st| {
         for t in templates(c) {
